@@ -29,19 +29,26 @@ import (
 	"github.com/emirpasic/gods/v2/trees/redblacktree"
 )
 
-// ReadOp is one read-only operation of the catalogue used by C18. Building it
-// computes the sequential answer; Run repeats the operation (possibly from
-// many goroutines at once) and reports whether the answer is the sequential
-// one. Run uses no fmt, no locks, no channels and no atomics, so the monitor
-// adds no synchronisation between concurrent readers.
+// ReadOp is one read-only operation of the catalogue used by C18. Do performs
+// it and boxes the answer; Eq compares two answers. Building the catalogue
+// does not perform the operations: the sequential answers are taken on a twin
+// container, so that the container under test has not been read at all before
+// the concurrent phase starts (a read that lazily repairs or memoises on its
+// first call would otherwise be healed by the monitor itself). Do and Eq use
+// no fmt, no locks, no channels and no atomics, so the monitor adds no
+// synchronisation between concurrent readers.
 type ReadOp struct {
 	Name string
-	Run  func() bool
+	Do   func() any
+	Eq   func(a, b any) bool
 }
 
 func rop[A any](name string, f func() A, eq func(a, b A) bool) ReadOp {
-	seq := f()
-	return ReadOp{Name: name, Run: func() bool { return eq(f(), seq) }}
+	return ReadOp{Name: name, Do: func() any { return f() }, Eq: func(a, b any) bool {
+		x, ok1 := a.(A)
+		y, ok2 := b.(A)
+		return ok1 && ok2 && eq(x, y)
+	}}
 }
 
 func eqv[A comparable](a, b A) bool { return a == b }
